@@ -155,6 +155,8 @@ class Engine(Interp):
         if h:
             self.note_assumed(f"{w}.{name}")
             return h(self, recv, args, node)
+        if w.startswith('path') and name == 'as_posix':
+            return Sym('str', z3.Function('posix_of', I, I)(recv.arg) if getattr(recv, 'arg', None) is not None else z3.Int(fresh_name('posix')))
         if w.startswith('DataFrame') or w.startswith('path'):
             return Opaque(w)
         raise OutOfSubset(f"call {w}.{name} at line {getattr(node, 'lineno', '?')}")
@@ -333,7 +335,10 @@ class Engine(Interp):
             if isinstance(v, (float, str)) or v is None:
                 return False
             if isinstance(v, Sym) and v.kind == 'any':
-                return Sym('bool', z3.Function('is_pyint', I, B)(v.t))
+                isi = z3.Function('is_pyint', I, B)(v.t)
+                # encoding convention: interned strings / enum members have codes >= 10**6 and are never ints
+                self.st.assume(z3.Implies(isi, v.t < 1000000))
+                return Sym('bool', isi)
             if isinstance(v, Sym) and v.kind == 'num':
                 return Sym('bool', z3.BoolVal(v.isint)) if v.isint else Sym('bool', z3.Function('is_pyint_num', R, B)(v.t))
             return False
@@ -363,13 +368,16 @@ class Engine(Interp):
     def alloc0(self):
         return z3.Const('alloc0', BoolArr)
 
+    def alloc(self):
+        return self.st.ghost.setdefault('alloc', self.alloc0())
+
     def alloc_fresh(self, ref):
         st = self.st
+        a = self.alloc()
         st.assume(ref.t > 0)
-        st.assume(z3.Not(z3.Select(self.alloc0(), ref.t)))
-        for other in st.ghost.setdefault('_new', []):
-            st.assume(ref.t != other)
-        st.ghost['_new'] = st.ghost['_new'] + [ref.t]
+        st.assume(z3.Not(z3.Select(a, ref.t)))
+        st.ghost['alloc'] = z3.Store(a, ref.t, z3.BoolVal(True))
+        st.ghost['_last_new'] = ref.t
 
     def construct(self, cls, args=None, havoc=True, label=None):
         """build an actor object by executing its real __init__ on symbolic arguments, then havoc every leaf"""
@@ -640,6 +648,13 @@ class Engine(Interp):
                         self.st.heap[k] = z3.Const(fresh_name(f"H!{cls}.{k[1]}"), self.st.heap[k].sort())
             return
         if loc[0] == 'ghost':
+            if loc[1] == 'alloc':
+                g = self.alloc()
+                new = z3.Const(fresh_name('ghost_alloc'), g.sort())
+                q = z3.Int(fresh_name('aq'))
+                self.st.assume(z3.ForAll([q], z3.Implies(z3.Select(g, q), z3.Select(new, q)), patterns=[z3.Select(g, q)]))
+                self.st.ghost['alloc'] = new
+                return
             g = self.st.ghost[loc[1]]
             self.st.ghost[loc[1]] = z3.Const(fresh_name('ghost_' + loc[1]), g.sort())
             return
@@ -672,6 +687,61 @@ class Engine(Interp):
         new = SV(self, self.st, names)
         c = Ctx(self, old, new, None, extra)
         return c
+
+    def probe_value(self, label, v):
+        pr = getattr(self, 'probes', None)
+        if pr is None or not isinstance(v, Sym):
+            return
+        pr['elem:' + label] = v.t
+        if v.kind == 'ref' and v.cls in self.spec.entities:
+            for f, ty in self.spec.entities[v.cls].items():
+                if ty in ('num', 'int', 'bool', 'str', 'any', 'optnum') or ty.startswith('enum:'):
+                    try:
+                        pr[f"elem:{label}.{f}"] = self.heap_read(v, f).t
+                    except Exception:
+                        pass
+
+    def loop_frame(self, spec, name, start, node):
+        """everything the loop does not declare in modifies / modifies_locals is unchanged by one iteration"""
+        from .frames import walk_leaves, leaf_equal
+        names = {k: v for k, v in self.st.locals.items() if k in start._names}
+        new_leaves, new_ids = walk_leaves(names)
+        old_leaves, _ = walk_leaves(start._names)
+        covered = set()
+        for ms in spec.modifies:
+            loc = self.resolve_loc(ms, self.st.locals)
+            if isinstance(loc, (ListObj, DictObj)):
+                p = new_ids.get(id(loc))
+                if p:
+                    covered.add(p)
+            elif isinstance(loc, tuple) and loc[0] in ('heap', 'ghost', 'now'):
+                covered.add(':'.join(loc))
+            else:
+                cont, key = loc
+                p = new_ids.get(id(cont))
+                if p:
+                    covered.add(f"{p}.{key}")
+        skip_roots = set(spec.modifies_locals)
+        for path, ov in old_leaves.items():
+            root = path.split('.')[0]
+            if path in covered or root in skip_roots:
+                continue
+            nv = new_leaves.get(path, NotImplemented)
+            if nv is NotImplemented:
+                continue
+            eq = leaf_equal(ov, nv)
+            if eq is True:
+                continue
+            self.oblige(f"loop-frame:{name}:{path}", 'frame', eq if eq is not False else False, node)
+        oh = start._s.heap
+        for k, arr in self.st.heap.items():
+            if f"heap:{k[0]}:{k[1].split('.')[0]}" in covered:
+                continue
+            o = oh.get(k)
+            if o is None:
+                o = z3.Const(f"H0!{k[0]}.{k[1]}", arr.sort())
+            if not o.eq(arr):
+                self.oblige(f"loop-frame:{name}:heap:{k[0]}.{k[1]}", 'frame', o == arr, node)
 
     def cut_loop(self, s, spec):
         raise OutOfSubset("while-loop invariants: not implemented yet")
@@ -742,6 +812,7 @@ class Engine(Interp):
         c = self.loop_ctx(spec, pre_loop, extra)
         for nm, cl in spec.inv(c):
             self.st.assume(hyp_of(cl))
+        iter_start = self.snapshot(dict(self.st.locals))
         # --- one more iteration, or exit
         more = (i < hi) if kind == 'range' else (vis.n < it.n)
         if self.branch(more):
@@ -752,7 +823,9 @@ class Engine(Interp):
                 self.st.assume(z3.Select(vis.cnt, e) < z3.Select(it.cnt, e))
                 if idx_name:
                     self.st.locals[idx_name] = Sym('num', z3.ToReal(vis.n), isint=True)
-                self.assign(tgt, self.elem_value(it, e))
+                ev_ = self.elem_value(it, e)
+                self.assign(tgt, ev_)
+                self.probe_value(ast.unparse(tgt), ev_)
             broke = False
             try:
                 self.exec_block(s.body)
@@ -769,9 +842,14 @@ class Engine(Interp):
             else:
                 vis2 = ListObj(z3.Store(vis.cnt, e, z3.Select(vis.cnt, e) + 1), vis.n + 1, it.elem)
                 extra2 = {'visited': vis2, 'iter': it, 'pre': pre_loop}
+            self.loop_frame(spec, name, iter_start, s)
+            extra2['last_new'] = self.st.ghost.get('_last_new')
             c2 = self.loop_ctx(spec, pre_loop, extra2)
             for nm, cl in spec.inv(c2):
                 self.oblige(f"loop-step:{name}:{nm}", 'loop-step', cl, s)
+            if spec.body:
+                for nm, cl in spec.body(c2):
+                    self.oblige(f"loop-body:{name}:{nm}", 'post', cl, s)
             raise PathEnd('loop-back')
         # exit
         if kind != 'range':
